@@ -4,7 +4,7 @@ R1 every error exit of a build entry releases what the build acquired;
 R2 a failed run is not resumed by the next compile+run; R3 the REPL does not
 adopt a failed line as its snapshot."""
 from ..core import (callee_of, expr_walk, expr_str, return_defs, short, op_place, MissingAnchor, FROM_RESIDUAL)
-from .. import awrite
+from .. import awrite, inline
 from ..pathq import (try_continue_block, bool_branch, blocks_reaching, blocks_after, exists_path_avoiding)
 
 EXPLANATION = (
@@ -34,19 +34,22 @@ RESOURCES = {
 }
 
 
-def build_entries(fx):
+def build_entries(fx, V):
     out = []
-    for fn, f in fx.fns.items():
+    for fn, f0 in fx.fns.items():
+        if V.transparent(fn):
+            continue          # a helper: seen through the functions that call it
+        if 'state::State::context_open' not in fx.reachable_from([fn]) or fn == 'state::State::build0':
+            continue
+        f = V(fn)
         cs = {callee_of(t) for _, t in f.calls()}
         if 'state::State::context_open' in cs:
-            reach = fx.reachable_from([fn])
-            if 'state::State::build0' in reach and fn not in ('state::State::build0',):
-                # direct callers of build0 or its closure
-                direct = 'state::State::build0' in cs or any(
-                    'state::State::build0' in {callee_of(t) for _, t in fx.fns[c].calls()}
-                    for c in fx.callgraph().get(fn, ()) if c in fx.fns and c.startswith(fn + '::{closure'))
-                if direct:
-                    out.append(fn)
+            # direct callers of build0 or its closure (helpers looked through)
+            direct = 'state::State::build0' in cs or any(
+                'state::State::build0' in {callee_of(t) for _, t in fx.fns[c].calls()}
+                for c in fx.callgraph().get(fn, ()) if c in fx.fns and c.startswith(fn + '::{closure'))
+            if direct:
+                out.append(fn)
     return sorted(out)
 
 
@@ -95,7 +98,15 @@ def run(rep, facts, tier):
     rep.rule('C10.R3', 'the REPL does not adopt a failed line as its snapshot')
     tracked = awrite.state_tracked(fx)
     W = awrite.all_field_writes(fx, 'state', tracked)
-    entries = build_entries(fx)
+    V = inline.View(fx)
+    _wv = {}
+
+    def Wv(fn):
+        if fn not in _wv:
+            _wv[fn] = awrite.field_writes(fx, V(fn), tracked) if V(fn) is not fx.fns.get(fn) else W.get(fn, [])
+        return _wv[fn]
+    entries = build_entries(fx, V)
+    rep.extra['helpers_looked_through'] = {e: V.inlined_into(e) for e in entries + ['state::State::context_close'] if V.inlined_into(e)}
     rep.floor('C10 build entries', len(entries), 1)
     memo = {}
     full = set(RESOURCES) | {'ctx', 'nested'}
@@ -103,8 +114,10 @@ def run(rep, facts, tier):
     # context_close on success is also a release of the context (it pops and restores)
     close = 'state::State::context_close'
 
+    called_release = set()
     for fn in entries:
-        f = fx.fns[fn]
+        f = V(fn)
+        called_release |= {callee_of(t2) for _, t2 in f.calls() if callee_of(t2) in release_fns}
         opens = [(bb, t) for bb, t in f.calls() if callee_of(t) == 'state::State::context_open']
         for obb, t in opens:
             acq = try_continue_block(f, obb)
@@ -149,16 +162,13 @@ def run(rep, facts, tier):
 
     # release functions: each path is a full release or a halt
     n_rel = 0
-    for rf in sorted(release_fns):
-        f = fx.fns[rf]
-        if rf in entries or any(rf == e for e in entries):
-            continue
-        # only direct (leaf-most) release functions: those with the writes themselves
-        own = {w['field'][0] for w in W.get(rf, []) if w['how'].startswith('call:shrink') or (w['field'] == ('ctx',))}
-        if not (set(RESOURCES) <= own):
+    for rf in sorted(called_release):
+        # the function a build entry calls on its error side, with its private helpers looked through
+        f = V(rf)
+        if rf in entries:
             continue
         n_rel += 1
-        ws = W.get(rf, [])
+        ws = Wv(rf)
         rets = set(f.return_blocks())
         halts = {w['bb'] for w in ws if is_halt_write(f, w)}
         for res, mark in sorted(RESOURCES.items()):
@@ -259,9 +269,10 @@ def run(rep, facts, tier):
     rep.floor('C10 release functions', n_rel, 1)
 
     # context_close: every path from nested.pop() to return assigns ctx
-    cf = fx.need(close)
-    pops = [w for w in W.get(close, []) if w['field'][0] == 'nested' and w['how'].startswith('call:shrink')]
-    ctxw = {w['bb'] for w in W.get(close, []) if w['field'] == ('ctx',)}
+    fx.need(close)
+    cf = V(close)
+    pops = [w for w in Wv(close) if w['field'][0] == 'nested' and w['how'].startswith('call:shrink')]
+    ctxw = {w['bb'] for w in Wv(close) if w['field'] == ('ctx',)}
     rets = set(cf.return_blocks())
     for w in pops:
         p = exists_path_avoiding(cf, w['bb'], lambda b: b in rets, ctxw)
@@ -271,11 +282,11 @@ def run(rep, facts, tier):
                 % '->bb'.join(map(str, p[:8])), close, w['at'])
     rep.floor('C10 context_close pop sites', len(pops), 1)
 
-    check_r2(rep, fx, W)
-    check_r3(rep, fx)
+    check_r2(rep, fx, W, V, Wv)
+    check_r3(rep, fx, V)
 
 
-def check_r2(rep, fx, W):
+def check_r2(rep, fx, W, V, Wv):
     """halt write on the protocol path: failing run -> compile -> run"""
     segs = {
         'i-run-error-exit': ['state::State::run', 'state::State::next', 'state::State::set_runtime_err_location'],
@@ -288,10 +299,10 @@ def check_r2(rep, fx, W):
     reach = fx.reachable_from(['state::State::compile_xstr'], stop={'state::State::context_open', 'state::State::build0', 'state::State::context_close',
                                                                       'state::State::intern_source'})
     for fn in sorted(reach):
-        f = fx.fns.get(fn)
-        if f is None:
-            continue
-        for w in W.get(fn, []):
+        if fn not in fx.fns or V.transparent(fn):
+            continue      # helpers are seen through their callers, guards included
+        f = V(fn)
+        for w in Wv(fn):
             if is_halt_write(f, w):
                 # guards: branch conditions this write is control dependent on
                 guards = []
@@ -343,10 +354,10 @@ def check_r2(rep, fx, W):
                 '%s does not record a failing step' % short(fn), fn, f.j['span'])
 
 
-def check_r3(rep, fx):
-    f = fx.fns.get('repl::run_line')
-    if f is None:
+def check_r3(rep, fx, V):
+    if fx.fns.get('repl::run_line') is None:
         raise MissingAnchor('repl::run_line (stdio feature off?)')
+    f = V('repl::run_line')
     ups = [(bb, t) for bb, t in f.calls() if callee_of(t) == 'repl::ReplState::update_xstate']
     rep.floor('C10.R3 update_xstate call sites in run_line', len(ups), 1)
     for bb, t in ups:
